@@ -7,8 +7,8 @@ from concurrent.futures import ThreadPoolExecutor
 VERIF = os.path.dirname(os.path.dirname(os.path.abspath(__file__)))
 REPO = os.environ.get('VERIF_REPO', '/repo')
 CACHE = os.path.join(VERIF, '.cache')
-EVID = os.path.join(VERIF, 'evidence')
-REPLAYS = os.path.join(VERIF, 'replays')
+EVID = os.environ.get('VERIF_EVID_DIR') or os.path.join(VERIF, 'evidence')   # mutant trials write their evidence elsewhere
+REPLAYS = os.path.join(os.environ['VERIF_EVID_DIR'], 'replays') if os.environ.get('VERIF_EVID_DIR') else os.path.join(VERIF, 'replays')
 CC = 'clang'
 NCPU = os.cpu_count() or 8
 
@@ -125,7 +125,7 @@ def build(flavour):
             _evict('z-%s-' % flavour, os.path.basename(zdir))
             log('[build] zstd flavour %s from %s: %.1fs' % (flavour, REPO, time.time() - t0))
         infra, harn = harness_sources()
-        hinc = ['-I', os.path.join(VERIF, 'sim'), '-I', os.path.join(VERIF, 'sim/core'), '-I', os.path.join(VERIF, 'ref')] + incs
+        hinc = ['-I', os.path.join(VERIF, 'sim'), '-I', os.path.join(VERIF, 'sim/core'), '-I', os.path.join(VERIF, 'ref'), '-I', os.path.join(REPO, 'tests')] + incs
         hflags = fl['h'] + BASE_DEFS + hinc + ['-Wall', '-Wno-unused-function', '-DSIM_FLAVOUR="%s"' % flavour]
         iflags = fl['i'] + BASE_DEFS + hinc + ['-Wall', '-Wno-unused-function', '-DSIM_FLAVOUR="%s"' % flavour]
         hkey = file_hash(harness_all_files(), zkey + ' '.join(hflags + iflags))
@@ -253,7 +253,7 @@ def run_batch(flavour, scenario, root, runs, tier, workers=None, time_cap=None, 
     workers = max(1, min(workers, runs))
     res = BatchResult(); t0 = time.time()
     tmpd = tempfile.mkdtemp(prefix='simw-', dir=CACHE)
-    env = dict(os.environ); env.update(env_extra or {})
+    env = dict(os.environ); env['SIM_CORPUS_DIR'] = CORPUS_ROOT; env.update(env_extra or {})
     class W: pass
     ws = []
     def spawn(w):
@@ -314,6 +314,51 @@ def run_batch(flavour, scenario, root, runs, tier, workers=None, time_cap=None, 
     shutil.rmtree(tmpd, ignore_errors=True)
     return res
 
+def build_decodecorpus():
+    """The repository's own generator of spec-valid 'exotic' frames (tests/decodecorpus.c), built as upstream builds it."""
+    os.makedirs(CACHE, exist_ok=True)
+    lockf = open(os.path.join(CACHE, '.lock-tool'), 'w'); fcntl.flock(lockf, fcntl.LOCK_EX)
+    try:
+        srcs = [os.path.join(REPO, 'tests/decodecorpus.c'), os.path.join(REPO, 'programs/util.c'), os.path.join(REPO, 'programs/timefn.c')]
+        for d in ['lib/common', 'lib/decompress', 'lib/dictBuilder', 'lib/compress']:
+            srcs += [s for s in glob.glob(os.path.join(REPO, d, '*.c')) + glob.glob(os.path.join(REPO, d, '*.S')) if not s.endswith('compress/zstd_compress.c')]
+        flags = ['-O1', '-w', '-DXXH_NAMESPACE=ZSTD_', '-DZSTD_MULTITHREAD'] + sum([['-I', os.path.join(REPO, i)] for i in ['lib', 'lib/common', 'lib/compress', 'lib/dictBuilder', 'programs', 'tests']], [])
+        key = file_hash(repo_all_files() + [os.path.join(REPO, 'programs/util.c'), os.path.join(REPO, 'programs/util.h'), os.path.join(REPO, 'programs/timefn.c')], ' '.join(flags))
+        tdir = os.path.join(CACHE, 'tool-dc-%s' % key); binp = os.path.join(tdir, 'decodecorpus')
+        if not os.path.exists(binp):
+            t0 = time.time(); shutil.rmtree(tdir, ignore_errors=True); os.makedirs(tdir)
+            jobs = [(s, os.path.join(tdir, os.path.relpath(s, REPO).replace('/', '_') + '.o'), flags) for s in sorted(srcs)]
+            errs = _compile_many(jobs)
+            if errs: raise BuildError('\n'.join(errs))
+            r = sh([CC, '-o', binp + '.tmp'] + [j[1] for j in jobs] + ['-lm', '-lpthread'])
+            if r.returncode != 0: raise BuildError(r.stdout[-3000:])
+            os.rename(binp + '.tmp', binp); _evict('tool-dc-', os.path.basename(tdir))
+            log('[build] decodecorpus tool: %.1fs' % (time.time() - t0))
+        return binp
+    finally:
+        fcntl.flock(lockf, fcntl.LOCK_UN); lockf.close()
+
+CORPUS_ROOT = os.path.join(CACHE, 'corpus')
+def ensure_corpus(seed, n):
+    """Deterministic corpus of n spec-valid frames for a seed (files z%06d.zst); regenerated on demand, e.g. for replays."""
+    d = os.path.join(CORPUS_ROOT, 'c%d_%d' % (seed, n))
+    if os.path.exists(os.path.join(d, '.done')): return d
+    binp = build_decodecorpus()
+    shutil.rmtree(d, ignore_errors=True); os.makedirs(d)
+    r = sh([binp, '-n%d' % n, '-p' + d, '-s%d' % seed, '--max-content-size-log=17'])
+    if r.returncode != 0: raise BuildError('decodecorpus failed: ' + r.stdout[-2000:])
+    open(os.path.join(d, '.done'), 'w').write('ok')
+    # keep at most 3 corpora
+    ds = sorted(glob.glob(os.path.join(CORPUS_ROOT, 'c*')), key=os.path.getmtime)
+    for old in ds[:-3]: shutil.rmtree(old, ignore_errors=True)
+    return d
+
+def corpus_for_plan(plan_lines):
+    kv = dict((l.split()[1], l.split()[2]) for l in plan_lines if l.startswith('P ') and len(l.split()) >= 3)
+    if 'corpus_seed' in kv and 'corpus_n' in kv and int(kv.get('corpus_n', 0)) > 0:
+        try: ensure_corpus(int(kv['corpus_seed']), int(kv['corpus_n']))
+        except Exception as e: log('[corpus] %r' % e)
+
 def gen_plan(flavour, scenario, root, idx, tier):
     binp = build(flavour)
     r = subprocess.run([binp, scenario, '--root', str(root), '--start', str(idx), '--count', '1', '--tier', tier, '--gen-only'], stdout=subprocess.PIPE, stderr=subprocess.PIPE, text=True)
@@ -323,12 +368,13 @@ def run_plan(flavour, plan_lines, cpu_cap=120, want_trace=False):
     """Run one explicit plan in a fresh process. Returns dict(status, cls, msg, hash, trace)."""
     binp = build(flavour)
     os.makedirs(CACHE, exist_ok=True)
+    corpus_for_plan(plan_lines)
     fd, path = tempfile.mkstemp(prefix='plan-', suffix='.txt', dir=CACHE)
     with os.fdopen(fd, 'w') as f: f.write('\n'.join(plan_lines) + '\n')
     try:
         cmd = [binp, 'x', '--plan', path, '--cpu-cap', str(cpu_cap)] + (['--dump-trace'] if want_trace else [])
         try:
-            r = subprocess.run(cmd, stdout=subprocess.PIPE, stderr=subprocess.PIPE, text=True, errors='replace', timeout=cpu_cap * 4 + 60)
+            r = subprocess.run(cmd, stdout=subprocess.PIPE, stderr=subprocess.PIPE, text=True, errors='replace', timeout=cpu_cap * 4 + 60, env=dict(os.environ, SIM_CORPUS_DIR=CORPUS_ROOT))
             rc, out, err = r.returncode, r.stdout, r.stderr
         except subprocess.TimeoutExpired as e:
             rc, out, err = 68, (e.stdout or b'').decode(errors='replace') if isinstance(e.stdout, bytes) else (e.stdout or ''), ''
